@@ -476,6 +476,12 @@ def impl(c):
         return "unobservable:%s:%s" % (type(e).__name__, e)
 
 
+def canon_eff_cells(reply):
+    if reply.startswith("ok "):
+        return ("effcells", tuple(wire.eff_cells_of_chunks(wire.dec_fmt(reply[3:]))))
+    return reply
+
+
 def canon_atts(reply):
     if reply.startswith("ok"):
         return ("atts", tuple(sorted(wire.dec_atts(reply[3:]).items())))
@@ -553,13 +559,17 @@ def _oracle(c):
         named = c["spec"]["named"]
         exp = [(ch, tuple(sorted(dict({k: v for k, v in a if v is not False}, **named).items())))
                for ch, a in wire.cells_of_chunks(c["g"])]
-        if cells(r) != exp:
+        def judged(cs):
+            """named attributes with their exact value; every OTHER attribute as what the character effectively has
+            (an explicit False that the parser kept from the text's own reset is the same as no entry)"""
+            return [(ch, tuple((k, v) for k, v in a if k in named or v is not False)) for ch, a in cs]
+        if judged(cells(r)) != judged(exp):
             return ("formatting applied to a str carrying SGR sequences: got %r, expected the text's own formatting "
                     "overridden by the named attributes %r" % (cells(r), exp))
         via = call_spec(FmtStr.from_str(str(mk_fmt(c["g"]))), c["spec"])
-        if cells(via) != cells(r):
+        if judged(cells(via)) != judged(cells(r)):
             return "fmtstr(s, spec) differs from fmtstr(FmtStr.from_str(s), spec): %r vs %r" % (cells(r), cells(via))
-        return shown(r, exp)
+        return shown(r, judged(cells(r)))
     if op == "shared2":
         if not c["f"]:
             return None
@@ -697,7 +707,12 @@ def check(ctx):
     tied = ok
     unfixed = lambda c: "valid" in c and c["valid"] is None
     ctx.tie("C14/atts", [c for c in tied if c["op"] in ("parse", "shared") and not unfixed(c)], line, impl, canon_atts, canon_atts)
-    ctx.tie("C14/cells", [c for c in tied if c["op"] not in ("parse", "shared") and not unfixed(c)], line, impl, canon_cells, canon_cells)
+    fromtext = lambda c: c["op"] == "applystr-named"
+    ctx.tie("C14/cells", [c for c in tied if c["op"] not in ("parse", "shared") and not unfixed(c) and not fromtext(c)], line, impl, canon_cells, canon_cells)
+    # attributes PARSED from the text of a str: compared as what each character effectively has (explicit False = absent);
+    # the raw dicts (whether the parser keeps a False after a reset) only at representation level
+    ctx.tie("C14/cells-of-parsed-str", [c for c in tied if fromtext(c)], line, impl, canon_eff_cells, canon_eff_cells)
+    ctx.tie("C14/cells-of-parsed-str-raw", [c for c in tied if fromtext(c)], line, impl, canon_cells, canon_cells, level="representation")
     # spellings / repeated mentions the statement does not fix (the model mirrors what the code does today)
     ctx.tie("C14/unfixed-spellings-atts", [c for c in tied if c["op"] == "parse" and unfixed(c)], line, impl, canon_atts,
             canon_atts, level="representation")
